@@ -280,6 +280,61 @@ func c16Scenario(c c16cfg) *Scenario {
 	return sc
 }
 
+// c16CertScenario: TLS handshakes for a name race with a command that unbinds the name from TLS (remove, redeploy
+// without TLS, redeploy onto another host); after the command returned no certificate is served for it.
+func c16CertScenario(cmd string) *Scenario {
+	sc := &Scenario{Name: fmt.Sprintf("C16-S handshakes || %q", cmd), Horizon: 60 * time.Second}
+	var after []error
+	var during []error
+	sc.Run = func(w *World) {
+		after, during = nil, nil
+		h := &HWorld{World: w, M: newModel(), allNames: map[string]bool{}}
+		h.apply(parseOp("deploy ra h=a.example.com p=/ o=tls"))
+		h.apply(parseOp("deploy rb h=b.example.com p=/ o=tls"))
+		time.Sleep(100 * time.Millisecond)
+		ch := &HWorld{World: w, M: h.M.clone(), allNames: map[string]bool{}, opNo: 50}
+		var wg vsync.WaitGroup
+		w.S.SetWindow(true)
+		wg.Add(3)
+		for i := 0; i < 2; i++ {
+			vsched.GoTagged("client", func() {
+				defer wg.Done()
+				_, err := w.Router.GetCertificate(&tls.ClientHelloInfo{ServerName: "a.example.com"})
+				w.mu.Lock()
+				during = append(during, err)
+				w.mu.Unlock()
+			})
+		}
+		vsched.GoTagged("cmd", func() {
+			defer wg.Done()
+			ch.apply(parseOp(cmd))
+		})
+		wg.Wait()
+		w.S.SetWindow(false)
+		for i := 0; i < 2; i++ {
+			_, err := w.Router.GetCertificate(&tls.ClientHelloInfo{ServerName: "a.example.com"})
+			after = append(after, err)
+		}
+		if _, err := w.Router.GetCertificate(&tls.ClientHelloInfo{ServerName: "b.example.com"}); err != nil {
+			w.Note("certificate for the untouched TLS service refused: %v", err)
+		}
+	}
+	sc.Check = func(w *World) []Violation {
+		var vs []Violation
+		for _, n := range w.Notes {
+			vs = append(vs, Violation{"C16", "certificate-refused-for-bound-tls-name", n})
+		}
+		for _, err := range after {
+			if err == nil {
+				vs = append(vs, Violation{"C16", "certificate-served-for-unbound-or-non-tls-name", fmt.Sprintf("after %q returned (it raced with handshakes for a.example.com) a handshake for that name was still given a certificate", cmd)})
+				break
+			}
+		}
+		return vs
+	}
+	return sc
+}
+
 func c16Configs() []c16cfg {
 	var cfgs []c16cfg
 	for _, root := range []string{"tls", "tlsnr"} {
@@ -322,6 +377,9 @@ func checkC16(t *testing.T, job *Job, res *Result) {
 		for _, c := range c16Configs() {
 			scs = append(scs, c16Scenario(c))
 		}
+		for _, cmd := range []string{"remove ra", "deploy ra h=a.example.com p=/ o=plain", "deploy ra h=c.example.com p=/ o=tls"} {
+			scs = append(scs, c16CertScenario(cmd))
+		}
 		b := Bounds{D: 2, S: 0}
 		if tier == "thorough" {
 			b = Bounds{D: 3, S: 0}
@@ -329,6 +387,6 @@ func checkC16(t *testing.T, job *Job, res *Result) {
 		runS(t, job, res, "C16", withReversed(scs), b, 0)
 	}
 	res.Engine = "H+E+S"
-	res.Rule += "; engine S: a sub-path service under a TLS root (with and without redirect) while a command that leaves the host's policy unchanged runs (unrelated deploy/redeploy/remove, redeploy of the sub-path or root service with the same flags, another sub-path service): a plain-HTTP and a TLS request at every schedule within the bounds must see the root's policy"
+	res.Rule += "; engine S: a sub-path service under a TLS root (with and without redirect) while a command that leaves the host's policy unchanged runs (unrelated deploy/redeploy/remove, redeploy of the sub-path or root service with the same flags, another sub-path service): a plain-HTTP and a TLS request at every schedule within the bounds must see the root's policy; TLS handshakes for a name racing with a command that unbinds it from TLS: no certificate afterwards"
 	_ = strings.TrimSpace
 }
